@@ -114,3 +114,21 @@ Proof.
     as (d & _ & He & _).
   exists ms. split; [exact He|]. exact (transfers_roundtrip ts ms Hok Hms).
 Qed.
+
+(** a requested deployment into workchain W is carried as a message to
+    (W, hash of the StateInit of code and data) with that StateInit attached *)
+Theorem deploy_carried chash wc code data body amount t m :
+  (forall c h, chash c = Ok h -> length h = 32%nat) ->
+  (byte_len amount <= 15)%nat -> (-128 <= wc < 128)%Z ->
+  deploy_transfer chash wc (Some code) (Some data) body amount = Ok t -> internal_msg t = Ok m ->
+  exists h, chash (cell_of_ct (deploy_stateinit code data)) = Ok h /\
+    decode_transfer m = Ok (mktr amount wc (bytes_to_bits h) true body (Some (code, data)) 3).
+Proof.
+  intros Hlen Ha Hw Ht Hm. unfold deploy_transfer in Ht. apply bind_ok in Ht. destruct Ht as (h & Hh & Ht).
+  injection Ht as <-. exists h. split; [exact Hh|]. apply transfer_roundtrip; [|exact Hm].
+  repeat split; cbn [t_amount t_addr t_wc]; try assumption; try lia.
+  assert (L : forall l : bytes, length (bytes_to_bits l) = (8 * length l)%nat).
+  { induction l as [|x r IH]; [reflexivity|]. cbn [bytes_to_bits flat_map length].
+    rewrite app_length, bits_of_length. fold (bytes_to_bits r). lia. }
+  rewrite L, (Hlen _ _ Hh). reflexivity.
+Qed.
